@@ -60,6 +60,8 @@ def _leaf(ch: Any, pool: list[Any]) -> Any:
     if k == 5 and pool:
         return pool[ch.draw(len(pool), "leaf.repeat")]
     version = 0xC0 if ch.draw(5, "leaf.version") else 0xC0 + 2 * (1 + ch.draw(8, "leaf.otherversion"))
+    if ch.draw(8, "leaf.oddversion") == 7:
+        version |= 1  # the low bit is the control block's parity bit, not part of the version: the library masks it off
     if k in (0, 1, 2):
         script = LEAF_SCRIPTS[ch.draw(len(LEAF_SCRIPTS), "leaf.script")]
     else:
@@ -96,7 +98,7 @@ def _random_tree(ch: Any, budget: int, pool: list[Any], depth: int = 0) -> tuple
 
 def _ref_tree(tree: Any) -> Any:
     if len(tree) == 1:
-        return (tree[0][0], taproot.serialize(tree[0][1]))
+        return (tree[0][0] & 0xFE, taproot.serialize(tree[0][1]))  # the low bit is not part of a leaf version
     return (_ref_tree(tree[0]), _ref_tree(tree[1]))
 
 
@@ -164,7 +166,7 @@ def run(ctx: Ctx) -> None:
         ctx.log("proof", n, f"depth={depths[n]}", len(control), ok)
         ctx.probe(f"proved-depth:{depths[n] if depths[n] >= 100 else min(depths[n], 9)}")
         version, raw = leaves[n]
-        if version == 0xC0 and raw in LEAF_SCRIPTS:
+        if version & 0xFE == 0xC0 and raw in LEAF_SCRIPTS:
             # an anyone-can-spend leaf: the whole spend goes to the engine
             prevouts = [TxOut(10_000, b"\x51\x20" + q)]
             tx = Tx(2, 0, [TxIn(OutPoint(b"\x33" * 32, 0), b"", 0xFFFFFFFD, Witness([script, control]))], [TxOut(9_000, b"\x00\x14" + bytes(20))])
